@@ -7,10 +7,14 @@ Tie, two ways: (1) the records the real watcher receives for every call are comp
 `emission` (type, key, every field); (2) closed loop on the implementation alone: the collected
 records go through Op.Encode / DecodeOp into ApplyPatch on a second instance and the logical dumps
 of primary and replica are compared.  Key / field / member names are kept valid UTF-8 here: the wire
-encoding (protobuf `string` fields) cannot carry other names - known finding."""
+encoding (protobuf `string` fields) cannot carry other names - known finding.
+(3) the wire encoding itself: Model/ProtoWire.lean (proto3 wire format + Op.Encode / DecodeOp, with the
+round-trip / injectivity / totality theorems of Props/C20.lean) against the real Op.Encode / DecodeOp on
+every operation type x edge values and on malformed inputs (checks/patchwire.py); the message table is
+regenerated from patch/op.pb.go + patch/patch.go on every run (source fact `patch`)."""
 import os
 import vlib, gen_api
-from checks import apicheck
+from checks import apicheck, patchwire
 
 UTF8 = {"00ff2a": "c3a92a", "00ff6d": "c3a96d"}
 MIN64 = "-9223372036854775808"
@@ -56,7 +60,11 @@ FAMS = [["str"], ["key", "str", "exp"], ["list"], ["hash"], ["set"], ["zset"], [
 def run(ctx, proofs_ok):
     q = ctx.tier == "quick"
     hft = vlib.build_harness(ctx, faketime=True)
-    vlib.replay_known_findings(ctx, vlib.build_harness(ctx), hft)
+    hplain = vlib.build_harness(ctx)
+    vlib.replay_known_findings(ctx, hplain, hft)
+    # the wire encoding itself (Model/ProtoWire.lean): Op.Encode / DecodeOp byte for byte
+    if patchwire.run(ctx, hplain):
+        return
     for ops in split_corpus(vlib.corpus_ops(ctx.pid, "ft.ops")):
         vlib.correspond_stream(ctx, hft, ops, "corpus", "corpus: witnesses of repaired defects", shrink=False)
     reps = 2 if q else 12
@@ -78,7 +86,7 @@ def run(ctx, proofs_ok):
                              ("DEL", "g2"), ("GEOADD", "g2", "0", "0", "origin"), ("GEOADD", "str", "1", "1", "m"), ("SET", "str", "v"), ("GEOADD", "str", "1", "1", "m"),
                              ("ZREM", "g", "Palermo"), ("GEOADD", "g", "13.361389", "38.115556", "Palermo")]):
         geo += [c(*cmd), "replicate b", "ldump", "inst b", "ldump", "inst a"]
-    g, _ = vlib.run_pair(ctx, geo, vlib.build_harness(ctx), "geo")
+    g, _ = vlib.run_pair(ctx, geo, hplain, "geo")
     ctx.cov["evaluations"] += len(geo)
     for i, op in enumerate(geo):
         if op.startswith("replicate ") and i + 3 < len(g):
